@@ -324,6 +324,75 @@ def fam_parse_limit(sess):
         sess.inconclusive(fam, 'not all literals covered: %r' % sorted(set(allw) - set(seen)), fam)
 
 
+def fam_query_limit(sess):
+    """the real Parser::parse on `<field> [, <field>] from . [limit N]` with symbolic fields (columns and constants) and N: the
+    Query's limit is N for N >= 1 and 0 (= unlimited) for an absent limit or `limit 0` whenever a column is selected"""
+    from mirsym.core import none
+    from mirsym.models_std import Seq
+    prog = sess.prog
+    fam = 'query_limit'
+    ov = P.table_overrides() + P.lexer_stub_overrides() + [(r'^UserDirs::new$|^directories::UserDirs::new$', lambda ctx, a, c: none(), 'stub:UserDirs::new(None)')]
+    ex = sess.executor(ov, unwind=14)
+    parse = prog.find('Parser', 'parse')
+    QF = E.struct_fields(prog, 'Query')
+    fields = ['name', 'size', 'q:x', '7']
+    columns = {'name', 'size'}
+    limits = [None, '0', '1', '3']
+    box = {'paths': 0}
+    sess.bounds[fam] = {'select list': '1 or 2 entries from %r (q:x = quoted constant)' % fields, 'limit clause': 'absent, 0, 1, 3'}
+
+    def run(ctx):
+        two = ctx.decide(ctx.fresh_bool('two_fields'))
+        l1, t1 = P.sym_lexem(ctx, prog, fields, 'f1')
+        lex = [l1]; tv = [t1]
+        if two:
+            l2, t2 = P.sym_lexem(ctx, prog, fields, 'f2')
+            lex += [P.mk_lexem(prog, ','), l2]; tv.append(t2)
+        lex += [P.mk_lexem(prog, 'from'), P.mk_lexem(prog, '.')]
+        li = ctx.concretize(ctx.fresh_bv('limit_choice', 8), range(len(limits)))
+        if limits[li] is not None:
+            lex += [P.mk_lexem(prog, 'limit'), P.mk_lexem(prog, limits[li])]
+        parser = P.mk_parser(prog, lex, roots_parsed=False, where_parsed=False)
+        return tv, limits[li], ctx.call_fn(parse, [Ref(Cell(parser)), Seq([]), BoolVal(False)])
+
+    def on_path(ctx, out):
+        box['paths'] += 1
+        if out[0] != 'ret':
+            if not box.get('bad'):
+                box['bad'] = True; sess.inconclusive(fam, str(out)[:300], fam)
+            return
+        tv, lim, res = out[1]
+        if conc(res.d) != 0:
+            if not box.get('viol'):
+                box['viol'] = True
+                sess.violated(fam, 'query_limit/rejected', 'a well-formed query is rejected', {}, None, fam)
+            return
+        got = res.p[0][0].f[QF.index('limit')]
+        anycol = Or([Or([t == i for i, f in enumerate(fields) if f in columns]) for t in tv])
+        if lim in (None, '0'):
+            cond = z3.Implies(anycol, got == 0)
+        else:
+            cond = got == int(lim)
+        if ctx.check(Not(cond)) == z3.unsat or box.get('viol'):
+            return
+        box['viol'] = True
+        m = ctx.model(Not(cond))
+        sel = [fields[m.eval(t, model_completion=True).as_long()] for t in tv]
+        q = ', '.join("'x'" if f == 'q:x' else f for f in sel) + ' from .' + ('' if lim is None else ' limit ' + lim)
+
+        def rep(q=q, lim=lim):
+            exe = common.native_binary()
+            tree = {'a': {'size': 1}, 'b': {'size': 2}, 'c': {'size': 3}, 'd': {'size': 4}}
+            r = common.run_cli(exe, [q], tree)
+            n = len(r['stdout'].split('\n')) - 1
+            want = 4 if lim in (None, '0') else min(4, int(lim))
+            return n != want or r['status'] != 0, '`%s` over 4 files -> %d rows, expected %d (status %s)' % (q, n, want, r['status'])
+        sess.violated(fam, 'query_limit/' + ('absent' if lim is None else lim), '`%s`: Query.limit = %s' % (q, m.eval(got, model_completion=True)), {'query': q}, rep, fam)
+    ex.explore(run, on_path)
+    if not box.get('viol') and not box.get('bad'):
+        sess.discharged('query_limit: limit N -> N; absent / 0 -> unlimited whenever a column is selected', family=fam, queries=box['paths'])
+
+
 def main(sess):
     sess.engines = ['mirsym (MIR symbolic execution) + z3 %s' % z3.get_version_string()]
     sess.assumptions += [
@@ -331,9 +400,12 @@ def main(sess):
         'TopN keys are abstract totally ordered values (u32); the real key type Criteria<String> and its Ord are C05',
     ]
     only = getattr(sess, 'only', None)
-    for name, f in (('topn_step', fam_topn_step), ('topn_history', fam_topn_history), ('parse_limit', fam_parse_limit)):
+    for name, f in (('topn_step', fam_topn_step), ('topn_history', fam_topn_history), ('parse_limit', fam_parse_limit), ('query_limit', fam_query_limit)):
         if not only or name in only:
             f(sess)
+    if not only or 'e2e' in only:
+        from drivers import e2e
+        e2e.family_for(sess, 'C06')
     try:
         from drivers import c06_walker
         if not only or 'walker' in only:
